@@ -394,15 +394,17 @@ structure COut where
   fields : List Field
   deriving Repr, DecidableEq, Inhabited
 
+/-- `len(set(include).difference(set(csvf_fieldnames))) > 0` (likewise for exclude) -/
+def unknownName (names : List String) : Option (List String) → Bool
+  | none => false
+  | some l => l.any (fun k => !names.contains k)
+
 /-- `read_csv_with_schema_dict(csv_file, ddf, schema_dictionary, ts, include, exclude, chunk_row_size)`;
     `names` are the header names as `csv.DictReader` returns them (stripped) -/
 def readCsv (file : Bytes) (names : List String) (schema : List (String × FieldKind))
     (incl excl : Option (List String)) (crs fuel : Nat) : Except Err COut :=
-  let bad (l : Option (List String)) : Bool := match l with
-    | none => false
-    | some l => l.any (fun k => !names.contains k)
-  if bad incl then .error (.valueError "include fields are not part of the file")
-  else if bad excl then .error (.valueError "exclude fields are not part of the file")
+  if unknownName names incl then .error (.valueError "include fields are not part of the file")
+  else if unknownName names excl then .error (.valueError "exclude fields are not part of the file")
   else
     let use := fieldsToUse names incl excl
     let indexMap := use.map (fun k => names.idxOf k)
